@@ -11,6 +11,9 @@ CHECKS = {
  "C02": ("property-based testing (proptest): metamorphic relation hash(d,p) == hash(29,p) >> 2(29-d) over generated positions on/next to borders of every depth; both build profiles",
          "Generated-input search over positions (2.4M quick / 70M thorough), each compared across all 30 depths, which implies every pair d<d'.",
          "Oracle is the crate against itself across depths (metamorphic); C01 anchors the deepest hash to the model.", "DESIGN.md §4 C02"),
+ "C17": ("property-based testing (proptest): generated positions / plane points (facet borders, |y|=1, |y|=2, integer x +-ulps, log-uniform colatitudes) vs. reference Calabretta-Roukema formulae, sphere and plane round trips, rejection of invalid arguments, base cell vs. lattice model; both build profiles",
+         "Generated-input search (22M quick / 1G thorough evaluations over 5 sub-checks) against an independent float reference and round-trip relations, tolerances stated in DESIGN.md.",
+         "Trusted: harness' reference projection; plane points closer than 1e-12 to a pole are compared on y only.", "DESIGN.md §4 C17"),
 }
 
 NOT_YET = {}
